@@ -158,7 +158,8 @@ class DisplayOracle:
             if self.sig_hint and sig in ("screen-mismatch", "missing-output"):
                 sig = self.sig_hint
             for tag, tag_sig in (("progress-frame-exceeds-screen",) * 2, ("transient-frame-fills-screen",) * 2,
-                                 ("print-without-newline-while-live", "partial-line-overwritten")):
+                                 ("print-without-newline-while-live", "partial-line-overwritten"),
+                                 ("print-options-reach-frame", "print-options-reach-frame")):
                 if tag in self.tags:
                     sig = tag_sig
                     break
